@@ -70,9 +70,11 @@ def isDigitChar (c : Char) : Bool := '0' ≤ c && c ≤ '9'
 /-- Python's `int(str)` restricted to what can reach it here: optional surrounding
 ASCII whitespace, optional sign, decimal digits with single underscores between digits.
 The harness only sends ASCII. -/
+def isWsChar (c : Char) : Bool :=
+  c = ' ' || c = '\t' || c = '\n' || c = '\r' || c = '\x0b' || c = '\x0c'
+
 def stripWs (cs : List Char) : List Char :=
-  let isWs := fun (c : Char) => c = ' ' || c = '\t' || c = '\n' || c = '\r' || c = '\x0b' || c = '\x0c'
-  ((cs.dropWhile isWs).reverse.dropWhile isWs).reverse
+  ((cs.dropWhile isWsChar).reverse.dropWhile isWsChar).reverse
 
 def digitsVal (cs : List Char) : Nat :=
   cs.foldl (fun acc c => if isDigitChar c then acc * 10 + (c.toNat - '0'.toNat) else acc) 0
@@ -90,10 +92,14 @@ def pyInt (s : List Char) : Option Int :=
   | '+' :: ds => if validDigits ds then some (digitsVal ds : Int) else none
   | ds => if validDigits ds then some (digitsVal ds : Int) else none
 
-def splitColon (cs : List Char) : List (List Char) :=
-  let r := cs.foldl (fun (acc : List (List Char) × List Char) c =>
-    if c = ':' then (acc.2.reverse :: acc.1, []) else (acc.1, c :: acc.2)) ([], [])
-  (r.2.reverse :: r.1).reverse
+/-- Python's `str.split(':')`. -/
+def splitColon : List Char → List (List Char)
+  | [] => [[]]
+  | c :: rest =>
+    if c = ':' then [] :: splitColon rest
+    else match splitColon rest with
+      | p :: ps => (c :: p) :: ps
+      | [] => [[c]]
 
 def parseMaxwarn (value : List Char) : ParseResult :=
   match splitColon value with
